@@ -24,9 +24,9 @@ def init : St := { sigs := [], dbs := [] }
 
 /-! ### tokens -/
 
-def nameOf (tok : String) : String := if tok = "-" then "" else tok.replace "~" " "
+def nameOf (tok : String) : String := if tok = "-" then "" else (tok.replace "~" " ").replace "^" "\t"
 
-def tokOf (s : String) : String := if s = "" then "-" else s.replace " " "~"
+def tokOf (s : String) : String := if s = "" then "-" else (s.replace " " "~").replace "\t" "^"
 
 def natList? (tok : String) : Option (List Nat) :=
   if tok = "-" then some [] else (tok.splitOn ",").mapM nat?
@@ -137,7 +137,7 @@ def idxOpts (tok : String) : LcaIndex.Opts :=
 
 def csvRows (tok : String) : List (List String) :=
   if tok = "-" then []
-  else (tok.splitOn "/").map (fun r => if r = "!" then [] else (r.splitOn ";").map (fun c => c.replace "~" " "))
+  else (tok.splitOn "/").map (fun r => if r = "!" then [] else (r.splitOn ";").map (fun c => (c.replace "~" " ").replace "^" "\t"))
 
 def step (st : St) (line : String) : St × String :=
   let bad := (st, "bad-op")
